@@ -356,3 +356,21 @@ def wrapper_param(f: FuncInfo, default: str = "node") -> str:
         if arg.annotation is not None and src(arg.annotation).split("|")[0].strip().split(".")[-1].endswith("Node"):
             return arg.arg
     return default
+
+
+def exposes_selection_else_all(db: ProgramDB, f: FuncInfo, value: ast.AST) -> bool:
+    """``value`` (what a wrapper stores as its outputs) is 'the wrapped graph's selection if set, else all its outputs' —
+    directly, through a single-assignment local, and possibly filtered by a comprehension over that expression."""
+    defs = {nm: ds[0].value for nm, ds in db.local_defs(f).items() if len(ds) == 1 and getattr(ds[0], "value", None) is not None}
+
+    def base(e: ast.AST, depth: int = 0) -> ast.AST:
+        if isinstance(e, ast.Name) and e.id in defs and depth < 3:
+            return base(defs[e.id], depth + 1)
+        if isinstance(e, ast.Call) and dotted(e.func) in ("tuple", "list") and len(e.args) == 1:
+            return base(e.args[0], depth + 1)
+        if isinstance(e, (ast.GeneratorExp, ast.ListComp)) and len(e.generators) == 1 and isinstance(e.elt, ast.Name) and src(e.elt) == src(e.generators[0].target):
+            return base(e.generators[0].iter, depth + 1)  # a filter of the exposed names
+        return e
+
+    b = base(value)
+    return isinstance(b, ast.IfExp) and src(b.test) == "graph.selected is not None" and src(b.body) == "graph.selected" and src(b.orelse) == "graph.outputs"
